@@ -160,25 +160,24 @@ func c09Server(c *eng.Ctx, d *dbInfo) {
 				return
 			}
 			n++
+			// path-sensitive: `case V != 0 && flag: ... case V != 0:` tests V twice
 			var vNonZero, vZero, flagT, flagF bool
-			for _, cond := range eng.FactsAt(in) {
+			lits, _ := eng.MustLiterals(f, in, func(cond eng.Cond) (string, bool, bool) {
 				if op, x, y, isCmp := cond.Cmp(); isCmp {
-					if k, isK := eng.ConstInt(y); isK && k == 0 && reqField(x, "Version") {
-						if op == token.NEQ {
-							vNonZero = true
-						}
-						if op == token.EQL {
-							vZero = true
-						}
+					if k, isK := eng.ConstInt(y); isK && k == 0 && reqField(x, "Version") && (op == token.NEQ || op == token.EQL) {
+						return "version-nonzero", op == token.NEQ, true
 					}
 				}
 				if v, truth, isB := cond.Bool(); isB && reqField(v, "UpdateIfChanged") {
-					if truth {
-						flagT = true
-					} else {
-						flagF = true
-					}
+					return "flag", truth, true
 				}
+				return "", false, false
+			})
+			if t, has := lits["version-nonzero"]; has {
+				vNonZero, vZero = t, !t
+			}
+			if t, has := lits["flag"]; has {
+				flagT, flagF = t, !t
 			}
 			a := call.Call.Args
 			idOK := len(a) > 1 && eng.Origin(a[1]) == ssa.Value(idP)
